@@ -23,7 +23,7 @@ from ..report import Ctx
 from ..selftest import Mutant
 
 PROP = "C09"
-TECHNIQUE = "static analysis: information-flow rules from supplied names/bound values to the cache key + caller-object mutation (reaching rebinding) analysis + mutator->invalidation reachability + check-then-act detection + CFG/guard rules on the hit path + memoised-deserialiser rule + key-covers-kwargs rule + dependence closure of the cache-use condition + function-identity component of the map cache key + who-writes rule for Pipeline.cache"
+TECHNIQUE = "static analysis: information-flow rules from supplied names/bound values to the cache key + caller-object mutation (reaching rebinding) analysis + mutator->invalidation reachability + check-then-act detection + CFG/guard rules on the hit path + memoised-deserialiser rule + key-covers-kwargs rule + dependence closure of the cache-use condition + function-identity component of the map cache key + who-writes rule for Pipeline.cache + root-argument values never taken from the cached function's bound values"
 BASE = "pipefunc._pipeline._base"
 CA = "pipefunc._pipeline._cache"
 EXPLANATION = (
